@@ -172,6 +172,26 @@ def BOUNDED(tier, seed):
                               f'{ {k: float(v) for k, v in shp.items()} }'})
         except Exception as ex:   # noqa
             fails.append({'key': 'sage_unbiased_product', 'summary': f'd={d}, product strategy: enumeration of the draws failed: {ex!r}'})
+    # background rows come from the storage AS IT IS NOW: a sliding window that has moved on since an earlier imputation
+    from ixai.storage import IntervalStorage
+    from props._util import outcome_distribution
+    evals += 1
+    distinct.add(('current_window',))
+    try:
+        def run_window():
+            st = IntervalStorage(size=2, store_targets=False)
+            imp = MarginalImputer(lambda z: {'output': Fraction(z['a'])}, 'joint', st)
+            st.update({'a': Fraction(10), 'b': Fraction(0)})
+            st.update({'a': Fraction(20), 'b': Fraction(0)})
+            imp.impute(['a'], {'a': Fraction(1), 'b': Fraction(2)}, 1)          # an imputation on the full window
+            st.update({'a': Fraction(30), 'b': Fraction(0)})                    # the window moves on: 10 leaves, 30 enters
+            return imp.impute(['a'], {'a': Fraction(1), 'b': Fraction(2)}, 1)[0]['output']
+        dist = outcome_distribution(run_window, 1, exact=True)
+        if dist != {Fraction(20): Fraction(1, 2), Fraction(30): Fraction(1, 2)}:
+            fails.append({'key': 'sage_unbiased', 'summary': 'after the window moved from (10, 20) to (20, 30) the imputed value of a is distributed '
+                          f'{ {str(k): str(v) for k, v in dist.items()} } instead of uniformly over the stored rows 20, 30'})
+    except Exception as ex:   # noqa
+        fails.append({'key': 'sage_unbiased', 'summary': f'sliding-window imputation: enumeration of the draws failed: {ex!r}'})
     # original mode: background rows uniform over the WHOLE data set (the explained observation included), for every observation
     names = ['a', 'b']
     data = [{'a': Fraction(0), 'b': Fraction(1)}, {'a': Fraction(2), 'b': Fraction(-1)}, {'a': Fraction(3), 'b': Fraction(4)}]
